@@ -58,6 +58,9 @@ PROP = [  # (subject fragment, property ids, key that used to be reported)
  ('any JSON line with "type" begin/end/summary was silently dropped', 'C04', "c04:line-altered (a structured-log line such as {\"level\":\"info\",\"type\":\"end\"} vanished; found from a sub-agent's note)"),
  ("--no-gitconfig --features <builtin feature> did not enable the features that feature enables", 'C13', "c13:no-gitconfig-differs-from-empty-config (found from a sub-agent's note; family added)"),
  ("--show-config named palette colours 8-15 differently from run to run", 'C13', "c13:nondeterministic-text:* (found from a sub-agent's note; raw text of repeated runs is compared now)"),
+ ("a hunk header that git coloured was truncated at --max-line-length", 'C08', "c08:equal (coloured and plain input differ: the coloured hunk header is cut at a small --max-line-length; found from a sub-agent's note)"),
+ ("lines that are not valid UTF-8 kept their CR and were cut at a byte position", 'C09,C08,C04', "c09:malformed / sgr-leak (a line with an invalid byte beyond --max-line-length is cut inside an escape sequence); CR kept in coloured CRLF lines with an invalid byte (found from two sub-agents' notes)"),
+ ("unused variable left behind by the side-by-side wrapping fix", 'C07', "(follow-up of the fix 8ed6a01: compiler warning only)"),
  ("lines differing by a zero-width character were paired at --max-line-distance 0", 'C06', "c06:distance-0-pairing / :sbs ('<U+0308>key' paired with ' key   ' at distance 0; found by the thorough tier)"),
 ]
 log = subprocess.run(['git', '-C', '/repo', 'log', '--format=%H%x09%s', '--reverse'], stdout=subprocess.PIPE).stdout.decode().splitlines()
